@@ -9,8 +9,9 @@ from ..core import Batch, cN, cZ, cbool, clist, cnat, copt, cpair
 ID = "C20"
 LEVEL = "proof"
 PROP_FILE = "Properties/C20.v"
-PROOF_FILES = ["Proofs/DisjointSetProofs.v", "Proofs/TriplesProofs.v", "Model/DisjointSet.v", "Model/Triples.v"]
+PROOF_FILES = ["Gen/DsuGen.v", "Proofs/DsuGenProofs.v", "Proofs/DisjointSetProofs.v", "Proofs/TriplesProofs.v", "Model/DisjointSet.v", "Model/Triples.v"]
 TRUSTED = [
+    "translator translator/pyfun.py + the type table in translator/dsu_gen.py: utils/disjoint_set.py (DisjointSet: __init__, find, unite, __len__, to_list) is translated statement by statement into Gen/*.v on every run and proved equal to the hand-written model",
     "model Model/DisjointSet.v of utils/disjoint_set.py (parent/rank lists, find on fuel S(max rank), union by rank, to_list, _binary recursion)",
     "model Model/Triples.v of tree_from_triples / all_trees_from_triples / tree_to_triples in utils/trees.py "
     "(recursion on fuel = number of leaves; set.pop() order of BreakUp as an explicit oracle)",
@@ -249,6 +250,13 @@ def cres(r, enc) -> str:
 
 
 # ---------------------------------------------------------------------------
+
+
+def pre_build(ctx):
+    from translator import dsu_gen
+    from .. import core
+    changed = dsu_gen.regenerate(core.REPO)
+    ctx.notes.append("Gen file of utils/disjoint_set.py " + ("regenerated (content changed)" if changed else "regenerated: unchanged"))
 
 
 def batches(ctx):
@@ -654,7 +662,7 @@ Definition st_eqb (a : res (bool * bool * nat * bool)) (b : option (res (bool * 
 
 OPEN_GOALS: list = []
 
-TECHNIQUE = ("Coq proofs (invariant of union-find with path compression and union by rank; induction on union histories, on the group list of "
+TECHNIQUE = ("translator tie: the source module is regenerated into Gallina on every run and proved equal to the model; Coq proofs (invariant of union-find with path compression and union by rank; induction on union histories, on the group list of "
              "_binary, on fuel for BUILD/AllTrees, Aho et al. argument for completeness) of model = specification; model tied to the code by "
              "exhaustive small-domain + random correspondence evaluated with vm_compute")
 LEVEL_TEXT = ("Machine-checked theorems, for every size: on every state reachable from DisjointSet(n) by in-range calls, to_list is the partition of the "
@@ -670,7 +678,7 @@ LEVEL_TEXT = ("Machine-checked theorems, for every size: on every state reachabl
               "Correspondence: all unite histories up to length 3 (quick) / 4 (thorough) on 5 elements + random mixed histories to 12 "
               "elements; all subsets of the 12 triples on 4 leaves (thorough; ~600 in quick) + random triple lists on 5-6 leaves; every plane binary tree "
               "on <= 5 leaves for the round trip; random compatible/incompatible tree sets for supertree.")
-LEVEL_NOTE = ("Trusted: Coq kernel; the hand-written models (correspondence is differential testing on the explored domain, not proof). "
+LEVEL_NOTE = ("Trusted: Coq kernel; the translator pyfun.py (fail-closed, declared type table); the hand-written models (correspondence is differential testing on the explored domain, not proof). "
               "trees_to_triples (union of the per-tree results through Python sets) is not modelled as a function: supertree_displays is stated for every "
               "leaf list / triple list with the same elements as the unions, and the correspondence batch 'supertree' lets the model run BreakUp with one "
               "fixed pop order, so it compares only order-independent observations (existence, 'displays every input tree', number of binary supertrees). "
